@@ -39,7 +39,11 @@ def run(tier, replay):
         lines = open(os.path.join(d, "trace.ndjson")).read().splitlines()
         for b in V.tlc_prints(r.output, "BAD"):
             e = json.loads(lines[b["l"] - 1])
-            if e["fn"] == "upload":
+            if e["fn"] == "catalog":
+                txt = "%s: %s(name=%r, id=%s, rev=%s, len=%s) on the bucket with files %s: result %s, files afterwards %s, chunks per file id %s; expected %s" % (
+                    b["what"], e["op"], e["name"], e["id"], e["rev"], e["len"], [(f["id"], f["name"], f["len"]) for f in e["pre"]], e["res"],
+                    [(f["id"], f["name"], f["len"]) for f in e["post"]], e["postchunks"], b["exp"])
+            elif e["fn"] == "upload":
                 txt = "%s: upload of %d bytes with chunk size %d (%s, %s): steps %s; stored chunks (n, len) %s; file record length=%s chunkSize=%s; expected %s" % (
                     b["what"], e["L"], e["C"], "tracked" if e["tracked"] else "untracked", e["how"], e["steps"][:12], e["chunks"][:6] + (["..."] if len(e["chunks"]) > 6 else []),
                     e["flen"], e["fchunk"], b["exp"])
@@ -51,6 +55,9 @@ def run(tier, replay):
         c.add("traces_validated_against_impl", summary["cases"])
         for i, line in enumerate(lines):
             e = json.loads(line)
+            if e["fn"] == "catalog":
+                nontrivial.add(("catalog", e["op"], e["res"]["err"]))
+                continue
             if e["fn"] == "upload":
                 nontrivial.add(("upload", e["C"], e["L"] % max(e["C"], 1), e["tracked"], e["how"]))
             else:
